@@ -408,10 +408,9 @@ def w(F, X, rep):
                 rep.ob(rid, ok, c, "frame = text, newline, newline", where=seq[0].loc if seq else loc(b.span), how=str(vals), detail="" if ok else "line encoder writes %s" % vals)
 
 
-def p(F, X, rep):
-    rid = "C17-P"
+def p(F, X, rep, rid="C17-P", extra_files=()):
     rep.rule(rid, "panic discipline on codec, driver and logging bodies")
-    bodies = [b for b in F.code_bodies() if panics.in_handler_scope(F, b) and "src/cln_plugin/" in b.span.get("f", "")]
+    bodies = [b for b in F.code_bodies() if (panics.in_handler_scope(F, b) and "src/cln_plugin/" in b.span.get("f", "")) or any(b.span.get("f", "").endswith(x) for x in extra_files)]
     rep.anchor(rid, "cln_plugin bodies in handler scope", len(bodies), 20)
     D = panics.Discharger(F, X)
     for s in panics.enumerate_sites(F, bodies):
